@@ -5,7 +5,8 @@
                            again by the decoder's lookup (JSON names first, then text names): JSON names
                            pairwise distinct, text names pairwise distinct, no field's JSON name is
                            another field's text name, extension names bracketed, other names not;
-                           a field with a real oneof is marked as member of a oneof.
+                           a field with a real oneof is marked as member of a oneof; no field is
+                           called "@type".
    json_core S nm          restriction of the proved theorem: no message type of the table has a special
                            JSON mapping (codes 1..8); google.protobuf.Empty (9) must have no fields.
    json_valid strict eu S nm fuel tid v   (eu = EmitUnpopulated)
@@ -33,7 +34,8 @@ Definition json_msg_ok (S : schema) (nm : names) (tid : nat) : bool :=
   && bs_nodup (map (fun p => fn_text (snd p)) fps)
   && forallb json_name_shape_ok fps
   && forallb (fun p => forallb (fun q => (fp_num p =? fp_num q) || negb (bs_eqb (fn_json (snd p)) (fn_text (snd q)))) fps) fps
-  && forallb (fun p => match f_oneof (fst p) with Some _ => fn_inoneof (snd p) | None => true end) fps.
+  && forallb (fun p => match f_oneof (fst p) with Some _ => fn_inoneof (snd p) | None => true end) fps
+  && forallb (fun p => negb (bs_eqb (fn_json (snd p)) s_at_type) && negb (bs_eqb (fn_text (snd p)) s_at_type)) fps.
 
 Definition json_schema_ok (S : schema) (nm : names) : bool :=
   rt_schema_ok S nm && forallb (json_msg_ok S nm) (seq 0 (length S)).
